@@ -48,6 +48,11 @@ Record storage := mkSt {
   st_max : N * N
 }.
 
+(* what else the evaluator's copy-on-write layers remember and the code below reads:
+   the creator (whose account holds AppParams), AppParams.SizeSponsor (0 = the creator), and
+   whether the creator's own local state was deleted earlier in the block under construction *)
+Record cowinfo := mkCI { ci_creator : N; ci_sponsor : N; ci_cclosed : bool }.
+
 Record world := mkW {
   w_global : option storage;               (* Some iff the application exists *)
   w_gschema : N * N;                       (* AppParams.GlobalStateSchema *)
@@ -55,12 +60,13 @@ Record world := mkW {
   w_local : list (N * (storage * (N * N)));(* address -> local storage, AppLocalState.Schema *)
   w_box : list (bytes * bytes);            (* box name -> contents *)
   w_tb : N;                                (* TotalBoxes of the application account *)
-  w_tbb : N                                (* TotalBoxBytes *)
+  w_tbb : N;                               (* TotalBoxBytes *)
+  w_cow : cowinfo
 }.
 
 (* right after the creating transaction (the approval program approves a creation) *)
-Definition winit (gs ls : N * N) : world :=
-  mkW (Some (mkSt [] (0, 0) gs)) gs ls [] [] 0 0.
+Definition winit (creator : N) (gs ls : N * N) : world :=
+  mkW (Some (mkSt [] (0, 0) gs)) gs ls [] [] 0 0 (mkCI creator 0 false).
 
 Inductive res (A : Type) : Type := Ok (a : A) | Err (e : N).
 Arguments Ok {A} a.
@@ -84,7 +90,7 @@ Definition R_APPLY : N := 3.       (* any other error of ApplicationCall *)
 
 (* ------------------------------------------------------------------ boxes *)
 Definition set_boxes (w : world) (b : list (bytes * bytes)) (tb tbb : N) : world :=
-  mkW (w_global w) (w_gschema w) (w_lschema w) (w_local w) b tb tbb.
+  mkW (w_global w) (w_gschema w) (w_lschema w) (w_local w) b tb tbb (w_cow w).
 
 (* applications.go NewBox (the existence test was done by the caller as well) *)
 Definition newBox (P : params) (name value : bytes) : SM unit := fun w =>
@@ -222,9 +228,13 @@ Definition st_del (s : storage) (key : bytes) : storage :=
   mkSt (adel bytes_eqb key (st_kv s)) (updateCounts (st_counts s) old None) (st_max s).
 
 Definition set_global (w : world) (g : option storage) : world :=
-  mkW g (w_gschema w) (w_lschema w) (w_local w) (w_box w) (w_tb w) (w_tbb w).
+  mkW g (w_gschema w) (w_lschema w) (w_local w) (w_box w) (w_tb w) (w_tbb w) (w_cow w).
 Definition set_local (w : world) (l : list (N * (storage * (N * N)))) : world :=
-  mkW (w_global w) (w_gschema w) (w_lschema w) l (w_box w) (w_tb w) (w_tbb w).
+  mkW (w_global w) (w_gschema w) (w_lschema w) l (w_box w) (w_tb w) (w_tbb w) (w_cow w).
+Definition set_cow (w : world) (c : cowinfo) : world :=
+  mkW (w_global w) (w_gschema w) (w_lschema w) (w_local w) (w_box w) (w_tb w) (w_tbb w) c.
+Definition set_cclosed (w : world) (b : bool) : world :=
+  set_cow w (mkCI (ci_creator (w_cow w)) (ci_sponsor (w_cow w)) b).
 
 Definition globalPut (P : params) (key : bytes) (v : tval) : SM unit := fun w =>
   if negb (put_lengths_ok P key v) then (w, Err R_LOGIC) else
@@ -330,22 +340,41 @@ Definition schema_empty (s : N * N) : bool := (fst s =? 0) && (snd s =? 0).
 (* optInApplication + AllocateApp(local) *)
 Definition optIn (sender : N) : SM unit := fun w =>
   if ahas N.eqb sender (w_local w) then (w, Err R_APPLY) else
-  (set_local w (aset N.eqb sender (mkSt [] (0, 0) (w_lschema w), w_lschema w) (w_local w)), Ok tt).
+  let w1 := set_local w (aset N.eqb sender (mkSt [] (0, 0) (w_lschema w), w_lschema w) (w_local w)) in
+  (* PutAppLocalState replaces a "deleted" local-state delta of this block *)
+  ((if sender =? ci_creator (w_cow w) then set_cclosed w1 false else w1), Ok tt).
 
 (* closeOutApplication + DeallocateApp(local) *)
 Definition closeOut (sender : N) : SM unit := fun w =>
   if negb (ahas N.eqb sender (w_local w)) then (w, Err R_APPLY) else
-  (set_local w (adel N.eqb sender (w_local w)), Ok tt).
+  let w1 := set_local w (adel N.eqb sender (w_local w)) in
+  (* DeleteAppLocalState leaves AppLocalStateDelta{Deleted: true} for (sender, app) in the block's cow *)
+  ((if sender =? ci_creator (w_cow w) then set_cclosed w1 true else w1), Ok tt).
 
-(* updateApplication with a size change: SetAppGlobalSchema, then the new schema in AppParams *)
-Definition updateApp (gs : N * N) : SM unit := fun w =>
-  if schema_empty gs then (w, Ok tt) else
+(* updateApplication: with a size change SetAppGlobalSchema, the new schema and the new size
+   sponsor in AppParams; always PutAppParams(creator, ...) at the end.
+   roundCowState.putAppParams copies the cached local-state delta of (creator, app) next to the
+   new params (cow_creatables.go).  When that delta says "deleted" (the creator closed out of its
+   own application earlier in this block) and the transaction's cow holds no account record of
+   the creator -- the sender is somebody else and no size change charged the creator --
+   AccountDeltas.ModifiedAccounts (ledgercore/statedelta.go) panics "account app state delta:
+   addr ... not in base account"; the evaluator recovers and the transaction fails. *)
+Definition updateApp (sender : N) (gs : N * N) : SM unit := fun w =>
+  let ci := w_cow w in
+  let creator := ci_creator ci in
+  let sizeChange := negb (schema_empty gs) in
+  let sponsor := if ci_sponsor ci =? 0 then creator else ci_sponsor ci in
+  let creator_touched := (sender =? creator) || (sizeChange && (sponsor =? creator)) in
+  let panics := ci_cclosed ci && negb creator_touched in
+  if negb sizeChange then (if panics then (w, Err R_APPLY) else (w, Ok tt)) else
   match w_global w with
   | None => (w, Err R_APPLY)
   | Some s =>
       let s' := mkSt (st_kv s) (st_counts s) gs in
       if negb (checkCounts s') then (set_global w (Some s'), Err R_APPLY) else
-      (mkW (Some s') gs (w_lschema w) (w_local w) (w_box w) (w_tb w) (w_tbb w), Ok tt)
+      let w' := mkW (Some s') gs (w_lschema w) (w_local w) (w_box w) (w_tb w) (w_tbb w)
+                    (mkCI creator (if sender =? creator then 0 else sender) (ci_cclosed ci)) in
+      if panics then (w', Err R_APPLY) else (w', Ok tt)
   end.
 
 Definition deleteApp : SM unit := fun w => (set_global w None, Ok tt).
@@ -371,7 +400,7 @@ Definition applicationCall (P : params) (sender : N) (accts : list N) (oc : onco
        (match oc with
         | CloseOut => closeOut sender
         | DeleteApp => deleteApp
-        | UpdateApp gs => updateApp gs
+        | UpdateApp gs => updateApp sender gs
         | _ => ret tt
         end) ;;;
        ret logs) w
@@ -394,7 +423,8 @@ Definition end_block (w : world) : world :=
       (map (fun e => (fst e, (mkSt (st_kv (fst (snd e))) (count_kv (st_kv (fst (snd e))))
                                    (if exists_ then w_lschema w else (0, 0)),
                               snd (snd e)))) (w_local w))
-      (w_box w) (w_tb w) (w_tbb w).
+      (w_box w) (w_tb w) (w_tbb w)
+      (mkCI (ci_creator (w_cow w)) (ci_sponsor (w_cow w)) false).
 
 Inductive op :=
 | OCall (sender : N) (accts : list N) (oc : oncomp) (sc : list sop)
